@@ -50,13 +50,17 @@ def run(ctx):
         g = gen.rand_path(rnd, rnd.choice([2, 3]), leaves=L0)
         if gen.temporal_count(g) <= 3 and gen.size(g) <= 8:
             n = rnd.choice([3, 4, 4, 5])
-            fam_d.append({'K': gen.rand_kripke(rnd, n), 'f': ('A', g), 'naming': rnd.choice(['int', 'str', 'tuple']),
+            fam_d.append({'K': gen.rand_kripke(rnd, n), 'f': ('A', g), 'naming': rnd.choice(['int', 'str', 'tuple', 'obj']),
                           'shuf': rnd.randrange(1 << 30)})
     # liveness over every 3-state structure with one atom (SCC-shape sensitive: ears, cross edges)
     live = [('F', ('G', P)), ('F', ('G', ('not', P))), ('G', ('F', P)), ('G', ('F', ('not', P))), ('U', P, ('G', ('not', P))),
             ('R', P, ('F', P)), ('imp', ('G', ('F', P)), ('F', ('G', P))), ('or', ('F', ('G', P)), ('G', ('F', ('not', P))))]
     k3p = [K for K in gen.small_scope(3, atoms=('p',)) if K['n'] == 3]
     fam_l = [{'K': K, 'f': ('A', g), 'cert': 5} for K in k3p for g in (live[:4] if q else live)]
+    # one temporal subformula occurring twice with different polarities (shared closure entries)
+    shp = gen.shared_polarity_formulas()
+    k12 = [K for K in gen.small_scope(2, atoms=('p', 'q'))]
+    fam_s = [{'K': rnd.choice(k12 + cat), 'f': ('A', g), 'cert': 5} for g in shp for _ in range(2 if q else 12)]
     # n-ary and/or (arity 3-4)
     temporal = [g for g in gen.path_un(M0) + gen.path_bi(M0) if g[0] in 'XFGUR']
     temporal += [('not', g) for g in temporal[:10]] + [(o, g) for o in 'XFG' for g in temporal[:6]]
@@ -69,8 +73,8 @@ def run(ctx):
         K = rnd.choice(scope3)
         if gen.temporal_count(g) <= 4:
             fam_n.append({'K': K, 'f': ('A', g), 'cert': 4 if K['n'] <= 2 else 5})
-    fam_e = [dict(c, mode='text') for c in gen.samp(rnd, fam_a + fam_n, 600 if q else 10000)]
-    for fam in (fam_a, fam_b, fam_c, fam_d, fam_e, fam_n, fam_l):
+    fam_e = [dict(c, mode=rnd.choice(['text', 'raw', 'raw'])) for c in gen.samp(rnd, fam_a + fam_n + fam_l, 1500 if q else 20000)]
+    for fam in (fam_a, fam_b, fam_c, fam_d, fam_e, fam_n, fam_l, fam_s):
         for c in fam:
             c['logic'] = 'LTL'
     # Layer-B binding (diagnostic): local consistency of the tableau atoms the real _build_atoms produced
@@ -89,7 +93,7 @@ def run(ctx):
         ctx.note('mechanism_binding', 'ok' if not drift else 'drift(_build_atoms): %d of %d atom lists contain a locally inconsistent atom' % (len(drift), len(aev)))
         if drift:
             ctx.log('mechanism drift (diagnostic only): ' + json.dumps(sorted(drift.items())[0][1])[:400])
-    events, bad = mcfam.run_families(ctx, [('scope2', fam_a), ('catalogue3', fam_b), ('deep', fam_c), ('liveness3', fam_l), ('nary', fam_n), ('random', fam_d),
+    events, bad = mcfam.run_families(ctx, [('scope2', fam_a), ('catalogue3', fam_b), ('deep', fam_c), ('liveness3', fam_l), ('shared-polarity', fam_s), ('nary', fam_n), ('random', fam_d),
                                            ('text', fam_e)])
 
 
